@@ -1,4 +1,4 @@
-"""Finding C11-boring-huge-nu: approximate_welch_t_test (boring_t) skips a gene whose exact Holm-corrected Welch p-value is below p_th.
+"""Finding F22 (C11-boring-huge-nu): approximate_welch_t_test (boring_t) skips a gene whose exact Holm-corrected Welch p-value is below p_th.
 boring_t_from_p_value(p_th) interpolates the NORMAL quantile linearly and lands ~6e-7 above it; for nu above a
 few million the Student CDF is closer to the normal one than that, so |t| slightly below boring_t has an exact
 p-value < p_th, yet the gene gets cdf = 0.5 (p = 1)."""
